@@ -151,6 +151,11 @@ Section Unfold.
           if (o_code (fst otr) =? 0) || ign
           then EOk (apply_trs (snd otr) (select ch (fst otr))) w'
           else EHard w')
+    | SRunT s' ign p =>
+        ebind (run_program r asm f tbl cwd p [s'] w) (fun otr w' =>
+          if (o_code (fst otr) =? 0) || ign
+          then EOk (apply_trs (snd otr) (o_out (fst otr))) w'
+          else EHard w')
     end.
   Proof. reflexivity. Qed.
 
@@ -197,9 +202,10 @@ Section Ext.
   Proof.
     induction fuel as [|fuel [IHs [IHl IHp]]]; [repeat split; reflexivity|].
     repeat split.
-    - intros s w. rewrite !eval_src_S. destruct s as [fs|t|ch ign p|s' t]; try reflexivity.
+    - intros s w. rewrite !eval_src_S. destruct s as [fs|t|ch ign p|s' t|s' ign p]; try reflexivity.
       + now rewrite IHp.
       + now rewrite IHs.
+      + now rewrite IHp.
     - intros l w. rewrite !eval_parts_S. destruct l as [|s l]; [reflexivity|].
       rewrite IHs. destruct (eval_src r2 asm fuel tbl cwd s w) as [t w'| |]; cbn [ebind]; try reflexivity.
       now rewrite IHl, src_is_direct_ext.
@@ -222,86 +228,94 @@ Section Ext.
   Proof. unfold run_command. destruct (driver_value tbl d); [|reflexivity]. now rewrite eval_parts_ext. Qed.
 End Ext.
 
-Definition is_def (i : instr) : bool := match i with IDef _ _ => true | _ => false end.
-Definition no_defs (l : list instr) : bool := forallb (fun i => negb (is_def i)) l.
-Definition case_no_defs (c : tcase) : bool :=
-  no_defs (tc_setup c) && no_defs (tc_before c) && no_defs (tc_assert c) && no_defs (tc_cleanup c).
+(** ** whole cases: definitions may be made anywhere; every table that is reached is well formed *)
+Lemma def_ok_wf tbl n v : wf_table tbl -> def_ok tbl n v = true -> wf_table ((n, v) :: tbl).
+Proof.
+  intros Hwf H. unfold def_ok in H. apply andb_true_iff in H as [H1 H2]. cbn. repeat split.
+  - destruct (lookup tbl n); [discriminate | reflexivity].
+  - destruct v as [d|[c a|n' a]]; trivial. destruct (lookup tbl n'); [discriminate | discriminate H2].
+  - exact Hwf.
+Qed.
 
 Section ExtCase.
   Variables r1 r2 : table -> program -> res rprog.
   Variable asm : list part -> option text.
-  Variable tbl : table.
-  Hypothesis Hr : forall p, r1 tbl p = r2 tbl p.
+  Hypothesis Hr : forall tbl, wf_table tbl -> forall p, r1 tbl p = r2 tbl p.
 
-  Lemma exec_instr_tbl r fuel ph i st s st' :
-    is_def i = false -> exec_instr r asm fuel ph i st = Ok (s, st') -> st_tbl st' = st_tbl st.
+  Lemma exec_instr_wf r fuel ph i st s st' :
+    wf_table (st_tbl st) -> exec_instr r asm fuel ph i st = Ok (s, st') -> wf_table (st_tbl st').
   Proof.
-    intros Hd H. destruct i; cbn in *; try discriminate.
-    - injection H as _ <-. reflexivity.
-    - destruct (run_program r asm fuel (st_tbl st) (st_cwd st) p [] (st_world st)); inversion H; reflexivity.
-    - destruct (eval_src r asm fuel (st_tbl st) (st_cwd st) s0 (st_world st)); inversion H; reflexivity.
-    - injection H as _ <-. reflexivity.
-    - destruct (st_act st); inversion H; reflexivity.
-    - destruct (st_act st); inversion H; reflexivity.
-    - destruct (st_act st); inversion H; reflexivity.
-    - destruct (run_program r asm fuel (st_tbl st) (st_cwd st) p [] (st_world st)); inversion H; reflexivity.
-    - destruct (run_program r asm fuel (st_tbl st) (st_cwd st) p [] (st_world st)); inversion H; reflexivity.
+    intros Hwf H. destruct i; cbn in H.
+    - destruct (def_ok (st_tbl st) n v) eqn:E; [|discriminate]. injection H as _ <-. cbn. now apply def_ok_wf.
+    - injection H as _ <-. exact Hwf.
+    - destruct (run_program r asm fuel (st_tbl st) (st_cwd st) p [] (st_world st)); inversion H; exact Hwf.
+    - destruct (eval_src r asm fuel (st_tbl st) (st_cwd st) s0 (st_world st)); inversion H; exact Hwf.
+    - injection H as _ <-. exact Hwf.
+    - destruct (st_act st); inversion H; subst; exact Hwf.
+    - destruct (st_act st); inversion H; subst; exact Hwf.
+    - destruct (st_act st); inversion H; subst; exact Hwf.
+    - destruct (run_program r asm fuel (st_tbl st) (st_cwd st) p [] (st_world st)); inversion H; exact Hwf.
+    - destruct (run_program r asm fuel (st_tbl st) (st_cwd st) p [] (st_world st)); inversion H; exact Hwf.
+    - destruct (st_act st) as [a|]; [|discriminate].
+      destruct (run_program r asm fuel (st_tbl st) (st_cwd st) p [SFile (select ch a)] (st_world st));
+        inversion H; exact Hwf.
+    - destruct (run_program r asm fuel (st_tbl st) (st_cwd st) _ [] (st_world st)); inversion H; exact Hwf.
   Qed.
 
   Lemma exec_instr_ext fuel ph i st :
-    st_tbl st = tbl -> exec_instr r1 asm fuel ph i st = exec_instr r2 asm fuel ph i st.
+    wf_table (st_tbl st) -> exec_instr r1 asm fuel ph i st = exec_instr r2 asm fuel ph i st.
   Proof.
-    intros Ht. destruct i; cbn; try reflexivity; rewrite Ht.
-    - now rewrite (run_program_ext r1 r2 asm tbl Hr).
-    - now rewrite (eval_src_ext r1 r2 asm tbl Hr).
-    - now rewrite (run_program_ext r1 r2 asm tbl Hr).
-    - now rewrite (run_program_ext r1 r2 asm tbl Hr).
+    intros Hwf. pose proof (Hr _ Hwf) as H. destruct i; cbn; try reflexivity.
+    - now rewrite (run_program_ext r1 r2 asm _ H).
+    - now rewrite (eval_src_ext r1 r2 asm _ H).
+    - now rewrite (run_program_ext r1 r2 asm _ H).
+    - now rewrite (run_program_ext r1 r2 asm _ H).
+    - destruct (st_act st); [|reflexivity]. now rewrite (run_program_ext r1 r2 asm _ H).
+    - now rewrite (run_program_ext r1 r2 asm _ H).
   Qed.
 
   Lemma exec_phase_ext fuel ph l st :
-    st_tbl st = tbl -> no_defs l = true ->
-    exec_phase r1 asm fuel ph l st = exec_phase r2 asm fuel ph l st.
+    wf_table (st_tbl st) -> exec_phase r1 asm fuel ph l st = exec_phase r2 asm fuel ph l st.
   Proof.
-    revert st. induction l as [|i l IH]; intros st Ht Hl; [reflexivity|].
-    cbn in Hl. apply andb_true_iff in Hl as [Hi Hl]. apply negb_true_iff in Hi.
-    cbn. rewrite (exec_instr_ext fuel ph i st Ht).
+    revert st. induction l as [|i l IH]; intros st Hwf; [reflexivity|].
+    cbn. rewrite (exec_instr_ext fuel ph i st Hwf).
     destruct (exec_instr r2 asm fuel ph i st) as [[s st']|e] eqn:E; [|reflexivity].
     destruct s; try reflexivity.
-    apply IH; [|exact Hl]. rewrite (exec_instr_tbl r2 fuel ph i st _ _ Hi E). exact Ht.
+    apply IH. exact (exec_instr_wf r2 fuel ph i st _ _ Hwf E).
   Qed.
 
-  Lemma exec_phase_tbl r fuel ph l st s st' :
-    no_defs l = true -> exec_phase r asm fuel ph l st = Ok (s, st') -> st_tbl st' = st_tbl st.
+  Lemma exec_phase_wf r fuel ph l st s st' :
+    wf_table (st_tbl st) -> exec_phase r asm fuel ph l st = Ok (s, st') -> wf_table (st_tbl st').
   Proof.
-    revert st. induction l as [|i l IH]; intros st Hl H.
-    - cbn in H. injection H as _ <-. reflexivity.
-    - cbn in Hl. apply andb_true_iff in Hl as [Hi Hl]. apply negb_true_iff in Hi.
-      cbn in H. destruct (exec_instr r asm fuel ph i st) as [[s0 st0]|e] eqn:E; [|discriminate].
-      pose proof (exec_instr_tbl r fuel ph i st _ _ Hi E) as Ht.
+    revert st. induction l as [|i l IH]; intros st Hwf H.
+    - cbn in H. injection H as _ <-. exact Hwf.
+    - cbn in H. destruct (exec_instr r asm fuel ph i st) as [[s0 st0]|e] eqn:E; [|discriminate].
+      pose proof (exec_instr_wf r fuel ph i st _ _ Hwf E) as Hwf0.
       destruct s0.
-      + rewrite <- Ht. now apply IH.
-      + injection H as _ <-. exact Ht.
-      + injection H as _ <-. exact Ht.
+      + now apply (IH st0).
+      + injection H as _ <-. exact Hwf0.
+      + injection H as _ <-. exact Hwf0.
   Qed.
 
   Lemma exec_act_ext fuel a st :
-    st_tbl st = tbl -> exec_act r1 asm fuel a st = exec_act r2 asm fuel a st.
+    wf_table (st_tbl st) -> exec_act r1 asm fuel a st = exec_act r2 asm fuel a st.
   Proof.
-    intros Ht. destruct a as [p|interp file args|interp source|]; cbn; try reflexivity; rewrite Ht.
-    - now rewrite (run_program_ext r1 r2 asm tbl Hr).
+    intros Hwf. pose proof (Hr _ Hwf) as H.
+    destruct a as [p|interp file args|interp source|]; unfold exec_act; try reflexivity.
+    - now rewrite (run_program_ext r1 r2 asm _ H).
     - destruct (negb (interpreter_ok interp)); [reflexivity|].
-      destruct (args_values tbl (c_args interp)); [|reflexivity].
-      destruct (args_values tbl args); [|reflexivity].
-      now rewrite (run_command_ext r1 r2 asm tbl Hr).
+      destruct (args_values (st_tbl st) (c_args interp)); [|reflexivity].
+      destruct (args_values (st_tbl st) args); [|reflexivity].
+      now rewrite (run_command_ext r1 r2 asm _ H).
     - destruct (negb (interpreter_ok interp)); [reflexivity|].
-      destruct (frags_text tbl source); [|reflexivity].
-      destruct (args_values tbl (c_args interp)); [|reflexivity].
-      now rewrite (run_command_ext r1 r2 asm tbl Hr).
+      destruct (frags_text (st_tbl st) source); [|reflexivity].
+      destruct (args_values (st_tbl st) (c_args interp)); [|reflexivity].
+      now rewrite (run_command_ext r1 r2 asm _ H).
   Qed.
 
   Lemma exec_act_tbl r fuel a st s st' : exec_act r asm fuel a st = Ok (s, st') -> st_tbl st' = st_tbl st.
   Proof.
-    intros H. destruct a as [p|interp file args|interp source|]; cbn in H.
+    intros H. destruct a as [p|interp file args|interp source|]; unfold exec_act in H.
     - destruct (run_program r asm fuel (st_tbl st) (st_cwd st) p (opt_list (st_stdin st)) (st_world st));
         inversion H; reflexivity.
     - destruct (negb (interpreter_ok interp)); [discriminate|].
@@ -316,48 +330,53 @@ Section ExtCase.
   Qed.
 
   Lemma cleanup_ext fuel earlier c st :
-    st_tbl st = tbl -> no_defs (tc_cleanup c) = true ->
+    wf_table (st_tbl st) ->
     cleanup_and_finish r1 asm fuel earlier c st = cleanup_and_finish r2 asm fuel earlier c st.
-  Proof. intros Ht Hc. unfold cleanup_and_finish. now rewrite (exec_phase_ext fuel PhCleanup _ st Ht Hc). Qed.
+  Proof. intros Hwf. unfold cleanup_and_finish. now rewrite (exec_phase_ext fuel PhCleanup _ st Hwf). Qed.
 
-  Theorem run_case_ext fuel cwd c oracle :
-    case_no_defs c = true ->
+  Theorem run_case_ext fuel cwd tbl c oracle :
+    wf_table tbl ->
     run_case_with r1 asm fuel cwd tbl c oracle = run_case_with r2 asm fuel cwd tbl c oracle.
   Proof.
-    intros Hc. unfold case_no_defs in Hc.
-    apply andb_true_iff in Hc as [Hc H4]. apply andb_true_iff in Hc as [Hc H3].
-    apply andb_true_iff in Hc as [H1 H2].
-    unfold run_case_with.
-    rewrite (exec_phase_ext fuel PhSetup (tc_setup c) (initial_state tbl cwd oracle) eq_refl H1).
+    intros Hwf. unfold run_case_with.
+    assert (W0 : wf_table (st_tbl (initial_state tbl cwd oracle))) by exact Hwf.
+    rewrite (exec_phase_ext fuel PhSetup (tc_setup c) _ W0).
     destruct (exec_phase r2 asm fuel PhSetup (tc_setup c) (initial_state tbl cwd oracle)) as [[s1 st1]|e] eqn:E1;
       [|reflexivity].
-    assert (T1 : st_tbl st1 = tbl) by (rewrite (exec_phase_tbl r2 fuel PhSetup _ _ _ _ H1 E1); reflexivity).
-    destruct s1; try (apply cleanup_ext; assumption).
-    rewrite (exec_act_ext fuel (tc_act c) st1 T1).
+    pose proof (exec_phase_wf r2 fuel PhSetup _ _ _ _ W0 E1) as W1.
+    destruct s1; try (now apply cleanup_ext).
+    rewrite (exec_act_ext fuel (tc_act c) st1 W1).
     destruct (exec_act r2 asm fuel (tc_act c) st1) as [[s2 st2]|e] eqn:E2; [|reflexivity].
-    assert (T2 : st_tbl st2 = tbl) by (rewrite (exec_act_tbl r2 fuel _ _ _ _ E2); exact T1).
-    destruct s2; try (apply cleanup_ext; assumption).
-    rewrite (exec_phase_ext fuel PhBefore (tc_before c) st2 T2 H2).
+    assert (W2 : wf_table (st_tbl st2)) by (rewrite (exec_act_tbl r2 fuel _ _ _ _ E2); exact W1).
+    destruct s2; try (now apply cleanup_ext).
+    rewrite (exec_phase_ext fuel PhBefore (tc_before c) st2 W2).
     destruct (exec_phase r2 asm fuel PhBefore (tc_before c) st2) as [[s3 st3]|e] eqn:E3; [|reflexivity].
-    assert (T3 : st_tbl st3 = tbl) by (rewrite (exec_phase_tbl r2 fuel PhBefore _ _ _ _ H2 E3); exact T2).
-    destruct s3; try (apply cleanup_ext; assumption).
-    rewrite (exec_phase_ext fuel PhAssert (tc_assert c) st3 T3 H3).
+    pose proof (exec_phase_wf r2 fuel PhBefore _ _ _ _ W2 E3) as W3.
+    destruct s3; try (now apply cleanup_ext).
+    rewrite (exec_phase_ext fuel PhAssert (tc_assert c) st3 W3).
     destruct (exec_phase r2 asm fuel PhAssert (tc_assert c) st3) as [[s4 st4]|e] eqn:E4; [|reflexivity].
-    assert (T4 : st_tbl st4 = tbl) by (rewrite (exec_phase_tbl r2 fuel PhAssert _ _ _ _ H3 E4); exact T3).
-    apply cleanup_ext; assumption.
+    pose proof (exec_phase_wf r2 fuel PhAssert _ _ _ _ W3 E4) as W4.
+    now apply cleanup_ext.
   Qed.
 End ExtCase.
 
-(** The model (resolution as the code does it) gives, for every case whose definitions have been made (symbol table
-    [tbl], well formed), every fuel, every oracle, exactly what the specification gives. *)
+(** The model (resolution as the code does it) gives, for EVERY case - definitions of strings, lists, paths and
+    programs may be made by instructions anywhere in any phase, interleaved with their uses; execution order
+    decides what is visible -, every well-formed initial symbol table, every fuel, current directory and oracle,
+    exactly what the specification gives. *)
 Theorem model_refines_spec :
   forall tbl, wf_table tbl ->
-  forall c, case_no_defs c = true ->
-  forall fuel cwd oracle, run_case fuel cwd tbl c oracle = spec_run_case fuel cwd tbl c oracle.
+  forall c fuel cwd oracle, run_case fuel cwd tbl c oracle = spec_run_case fuel cwd tbl c oracle.
 Proof.
-  intros tbl Hwf c Hc fuel cwd oracle. unfold run_case, spec_run_case.
-  apply run_case_ext; [|exact Hc]. intros p. now apply resolve_refines_denote.
+  intros tbl Hwf c fuel cwd oracle. unfold run_case, spec_run_case.
+  apply run_case_ext; [|exact Hwf]. intros t Ht p. now apply resolve_refines_denote.
 Qed.
+
+(** every symbol table reached while a case runs is well formed, so [resolve] never runs out of fuel in it *)
+Theorem reached_tables_well_formed :
+  forall r asm fuel ph l st s st',
+    wf_table (st_tbl st) -> exec_phase r asm fuel ph l st = Ok (s, st') -> wf_table (st_tbl st').
+Proof. intros r asm fuel ph l st s st'. apply exec_phase_wf. Qed.
 
 (** ** the process started for a program, and its outcome *)
 Section Outcome.
@@ -528,3 +547,39 @@ Lemma program_as_text_source r asm f tbl cwd ch ign p w o trs w' :
   eval_src r asm (S f) tbl cwd (SProg ch ign p) w =
   if (o_code o =? 0) || ign then EOk (apply_trs trs (select ch o)) w' else EHard w'.
 Proof. intros H. rewrite eval_src_S, H. reflexivity. Qed.
+
+(** ** programs as transformer and as matcher ([run]) *)
+Lemma run_as_transformer r asm f tbl cwd s ign p w o trs w' :
+  run_program r asm f tbl cwd p [s] w = EOk (o, trs) w' ->
+  eval_src r asm (S f) tbl cwd (SRunT s ign p) w =
+  if (o_code o =? 0) || ign then EOk (apply_trs trs (o_out o)) w' else EHard w'.
+Proof. intros H. rewrite eval_src_S, H. reflexivity. Qed.
+
+Lemma run_as_text_matcher r asm fuel ph ch neg p st a o trs w' :
+  st_act st = Some a ->
+  run_program r asm fuel (st_tbl st) (st_cwd st) p [SFile (select ch a)] (st_world st) = EOk (o, trs) w' ->
+  exec_instr r asm fuel ph (IOutRun ch neg p) st
+  = Ok (if xorb (o_code o =? 0) neg then StPass else StFail, set_world st w').
+Proof. intros Ha H. cbn. rewrite Ha, H. reflexivity. Qed.
+
+Lemma run_as_file_matcher r asm fuel ph neg path p st o trs w' :
+  run_program r asm fuel (st_tbl st) (st_cwd st) (new_accumulated p (Acc [] [AStr [FConst path]] [])) [] (st_world st)
+    = EOk (o, trs) w' ->
+  exec_instr r asm fuel ph (IFileRun neg path p) st
+  = Ok (if xorb (o_code o =? 0) neg then StPass else StFail, set_world st w').
+Proof. intros H. cbn. rewrite H. reflexivity. Qed.
+
+(** accumulating the path onto a program puts it after all arguments, whatever chain the program goes through *)
+Lemma resolve_new_accumulated fuel tbl p a rp :
+  resolve fuel tbl p = Ok rp -> resolve fuel tbl (new_accumulated p a) = Ok (extend rp a).
+Proof.
+  revert p a rp. induction fuel as [|fuel IH]; intros p a rp H; [discriminate|].
+  destruct p as [c a0|n a0]; cbn in *.
+  - injection H as <-. unfold extend; cbn. now rewrite <- app_assoc.
+  - destruct (lookup tbl n) as [[d|q]|]; try discriminate.
+    destruct q as [c1 a1|n1 a1]; cbn [new_accumulated] in *.
+    + rewrite <- acc_app_assoc. change (PCmd c1 (acc_app (acc_app a1 a0) a)) with (new_accumulated (PCmd c1 (acc_app a1 a0)) a).
+      now apply IH.
+    + rewrite <- acc_app_assoc. change (PRef n1 (acc_app (acc_app a1 a0) a)) with (new_accumulated (PRef n1 (acc_app a1 a0)) a).
+      now apply IH.
+Qed.
